@@ -106,7 +106,9 @@ func registerNatives(e *Engine) map[string]nativeFn {
 			}
 			ni := vc.fresh("inner$uint8", SArr(SInt, SInt))
 			vc.assumeGlobal(mkEq(ni, inner))
+			restore := vc.withTouch(s.Base)
 			vc.famSet(st, key, mkStore(arr, s.Base, ni))
+			restore()
 			vc.eng.usePack(vc, w)
 			return nil
 		}
